@@ -8,7 +8,7 @@ import numpy as np
 from hypothesis import strategies as st
 
 from vf import samp
-from vf.core import Result, through_code_under_test
+from vf.core import HarnessError, Result, through_code_under_test
 
 ID = "C13"
 LEVEL = "exploration"
@@ -228,7 +228,27 @@ def run_one(res, cfg, tag):
         lg.addHandler(cap)
         old_prop, lg.propagate = lg.propagate, False
         try:
-            out, _ = samp.run(cfg, b, memdir=sc.memdir)
+            try:
+                out, _ = samp.run(cfg, b, memdir=sc.memdir)
+            except HarnessError as e:
+                if "watchdog" not in str(e):
+                    raise
+                # an uninterrupted run of a few iterations takes well under a second; a 120 s time-out is either machine
+                # load (inconclusive) or a call that does not return: try once more, a second time-out is reported
+                res.classes.append("watchdog-retried")
+                log = samp.Log(sc.logdir + "-retry")
+                import os as _os
+                _os.makedirs(log.directory, exist_ok=True)
+                _os.makedirs(sc.memdir + "-retry", exist_ok=True)
+                b = samp.build(cfg, log)
+                try:
+                    out, _ = samp.run(cfg, b, memdir=sc.memdir + "-retry")
+                except HarnessError as e2:
+                    if "watchdog" not in str(e2):
+                        raise
+                    res.fail("C13:sample_chains:does-not-return", f"[{tag}] sample_chains did not return within 120 s "
+                             f"(twice); runs of this size take well under a second")
+                    return None, None
         except Exception as e:  # noqa: BLE001
             if through_code_under_test(e.__traceback__) is None:
                 raise
